@@ -229,7 +229,12 @@ func genScanCases(p *PRNG, n int) []*Case {
 		add("corpus", f.Data)
 	}
 	for len(cases) < n {
-		switch p.Intn(10) {
+		switch p.Intn(12) {
+		case 10, 11:
+			m := GenModel(p.Fork(), 1+p.Intn(3))
+			txt, exp := RenderTreeLex(ModelTree(m), RandomLayout(p.Fork()))
+			add("rendered", []byte(txt))
+			cases[len(cases)-1].Exp = exp
 		case 0, 1, 2, 3:
 			f := Pick(p, small)
 			add("corpus-mutated", mutate(p, f.Data, 1+p.Intn(3)))
@@ -239,7 +244,9 @@ func genScanCases(p *PRNG, n int) []*Case {
 			add("line-soup", lineSoup(p, 1+p.Intn(10)))
 		case 8:
 			m := GenModel(p.Fork(), 1+p.Intn(3))
-			add("rendered", []byte(RenderModel(m, RandomLayout(p.Fork()))))
+			txt, exp := RenderTreeLex(ModelTree(m), RandomLayout(p.Fork()))
+			add("rendered", []byte(txt))
+			cases[len(cases)-1].Exp = exp
 		default:
 			m := GenModel(p.Fork(), 1+p.Intn(3))
 			add("rendered-mutated", mutate(p, []byte(RenderModel(m, RandomLayout(p.Fork()))), 1+p.Intn(2)))
